@@ -239,13 +239,19 @@ def decl_module(d, ops_wanted):
     cmpf = []
     if "PartialEq" in info.traits:
         cmpf.append('out.push_str(&format!("eq={} ieq={} ", b(tx == ty), b(ix == iy)));')
+    if "PartialEq" in info.traits:
+        # != and the comparison of a value with itself (the same object, and a clone when there is Clone)
+        cmpf.append('out.push_str(&format!("ne={} ine={} self={}{} iself={}{} ", b(tx != ty), b(ix != iy), b(tx == tx), b(ty == ty), b(ix == ix), b(iy == iy)));')
     if "PartialOrd" in info.traits:
         cmpf.append('out.push_str(&format!("pcmp={} ipcmp={} ", ord_s(tx.partial_cmp(&ty)), ord_s(ix.partial_cmp(&iy))));')
+        cmpf.append('out.push_str(&format!("ops={}{}{}{} iops={}{}{}{} ", b(tx < ty), b(tx <= ty), b(tx > ty), b(tx >= ty), b(ix < iy), b(ix <= iy), b(ix > iy), b(ix >= iy)));')
     if "Ord" in info.traits:
         if inner in FLOAT_TYPES:
             cmpf.append('out.push_str(&format!("cmp={} icmp={} ", ord_s(Some(tx.cmp(&ty))), ord_s(ix.partial_cmp(&iy))));')
         else:
             cmpf.append('out.push_str(&format!("cmp={} icmp={} ", ord_s(Some(tx.cmp(&ty))), ord_s(Some(ix.cmp(&iy)))));')
+            if "Clone" in info.traits and inner not in FLOAT_TYPES:
+                cmpf.append('out.push_str(&format!("mm={}{} imm={}{} ", b(tx.clone().max(ty.clone()).into_inner().same(&ix.clone().max(iy.clone()))), b(tx.clone().min(ty.clone()).into_inner().same(&ix.clone().min(iy.clone()))), 1, 1));')
     if "Hash" in info.traits:
         cmpf.append('out.push_str(&format!("h={} ", b(hash_of(&tx) == hash_of(&ix))));')
         if inner == "String":
@@ -570,9 +576,17 @@ def attribute_errors(ws, errors):
                     did = mm.group(1)
                     break
             if did:
-                bad.setdefault(did, []).append(msg["message"])
+                bad.setdefault(did, []).append(Msg(msg["message"], (msg.get("code") or {}).get("code")))
             break
     return bad
+
+
+class Msg(str):
+    """a compiler message with rustc's error code (None for errors raised by a proc macro)"""
+    def __new__(cls, text, code=None):
+        o = str.__new__(cls, text)
+        o.code = code
+        return o
 
 
 class ModuleWorkspace(Workspace):
